@@ -484,7 +484,7 @@ theorem core_checkPending (c : Cfg) (hfix : c.holdFix = true) (env : Env) (past 
     CoreOk c past s e (checkPending env n1).1 (checkPending env n1).2 := by
   have w1 : WF n1 := ⟨by rw [hs]; exact inv.wf.keyed, by rw [hs]; exact inv.wf.nodup⟩
   unfold checkPending
-  rcases dispatchKeys_kstep env (pendingKeys n1.store) n1 w1 with ⟨w', e', o', i'⟩
+  rcases dispatchKeys_kstep env (pendingKeys n1.store) n1 w1 with ⟨w', e', o', i', _⟩
   refine ⟨w', (e'.cfg.trans hcfg).trans inv.cfg, ?_, ?_, ?_, ?_, ?_, e'.peers.trans hp, by rw [e'.peers]; exact hpn⟩
   · rw [hev, e'.now, hnow, inv.now]
   · intro k it hg
